@@ -29,6 +29,7 @@ BASE_CFG = {
     "extend_then_ordered_window_prob": 0.25,
     "extend_then_partition_window_prob": 0.15,
     "concat_with_source_prob": 0.15,
+    "order_twin_prob": 0.15,
     "narrowing_tails": True,
     "shape_prob": 0.65,  # the rest are plain chains, where extend -> ordered window on the fresh column is frequent
 }
@@ -308,6 +309,6 @@ def run(ctx):
     )
     # CTE-elimination focus: always a diamond (shared node, consumers that are twins / ask for different column subsets)
     ccfg = dict(cfg)
-    ccfg.update({"shape_prob": 1.0, "narrowing_tails": True, "concat_perm_prob": 0.15})
+    ccfg.update({"shape_prob": 1.0, "narrowing_tails": True, "concat_perm_prob": 0.15, "order_twin_prob": 0.25})
     ctx.campaign("cte_focus", gen.programs(ccfg), lambda case: oracle(case, "cte"), max_examples=ctx.n(120, 16000))
     ctx.campaign("merge_focus", gen.programs(mcfg), lambda case: oracle(case, "merge"), max_examples=ctx.n(250, 24000))
